@@ -76,6 +76,10 @@ pub struct WalkCase {
     pub variant: Variant,
     /// one per table (missing = undeclared)
     pub sources: Vec<SourceDecl>,
+    /// memory limit of the runtime in bytes and whether the pool is a FairSpillPool (else greedy); the disk manager spills
+    /// to the OS temp dir. None = unlimited (the default runtime). Only C53 samples it.
+    #[serde(default)]
+    pub mem_limit: Option<(u64, bool)>,
 }
 
 impl WalkCase {
@@ -94,8 +98,9 @@ impl WalkCase {
             .map(|(i, s)| format!("t{i}: sort={:?} renumber={} extra={} id_not_null={} dict_cols={:?}", s.sort, s.renumber, s.extra, s.id_not_null, s.dict_cols))
             .collect();
         format!(
-            "\n  sql: {}\n  variant: tp={} batch_size={:?} mem_partitions={} batch_rows={:?} strings={:?} options={:?}\n  declared sources: {}",
+            "\n  sql: {}\n  memory limit: {:?}\n  variant: tp={} batch_size={:?} mem_partitions={} batch_rows={:?} strings={:?} options={:?}\n  declared sources: {}",
             self.sql(),
+            self.mem_limit,
             self.variant.target_partitions,
             self.variant.batch_size,
             self.variant.mem_partitions,
@@ -216,7 +221,7 @@ pub fn case_strategy(tier: Tier, purpose: Purpose, ref_weight: u32, tmpl_weight:
         tmpl_weight => crate::tmpl::strategy(purpose != Purpose::Metrics).prop_map(Program::Tmpl),
     ];
     (refsql::tables_strategy(&cfg), program, variant_strategy(tier, purpose), prop::collection::vec(source_strategy(), 3))
-        .prop_map(|(tables, program, variant, sources)| WalkCase { tables, program, variant, sources })
+        .prop_map(|(tables, program, variant, sources)| WalkCase { tables, program, variant, sources, mem_limit: None })
         .boxed()
 }
 
@@ -615,8 +620,28 @@ where
     F: FnOnce(SessionContext) -> Fut,
     Fut: std::future::Future<Output = Result<T, WalkFail>>,
 {
+    in_session_limited(variant, None, f)
+}
+
+/// as [`in_session`], optionally with a memory-limited runtime (spilling operators spill to the OS temp dir)
+pub fn in_session_limited<T, F, Fut>(variant: &Variant, mem_limit: Option<(u64, bool)>, f: F) -> Result<T, WalkFail>
+where
+    F: FnOnce(SessionContext) -> Fut,
+    Fut: std::future::Future<Output = Result<T, WalkFail>>,
+{
     let rt = vf_df::build_runtime(variant).map_err(|e| WalkFail::Setup(e.to_string()))?;
-    let ctx = vf_df::build_context(variant, |b| b).map_err(|e| WalkFail::Plan(engine_err(&e, "setup")))?;
+    let ctx = match mem_limit {
+        None => vf_df::build_context(variant, |b| b).map_err(|e| WalkFail::Plan(engine_err(&e, "setup")))?,
+        Some((bytes, fair)) => {
+            use datafusion::execution::memory_pool::{FairSpillPool, GreedyMemoryPool, MemoryPool};
+            use datafusion::execution::runtime_env::RuntimeEnvBuilder;
+            let pool: Arc<dyn MemoryPool> = if fair { Arc::new(FairSpillPool::new(bytes as usize)) } else { Arc::new(GreedyMemoryPool::new(bytes as usize)) };
+            let env = RuntimeEnvBuilder::new().with_memory_pool(pool).build_arc().map_err(|e| WalkFail::Plan(engine_err(&e, "setup")))?;
+            let cfg = vf_df::session_config(variant).map_err(|e| WalkFail::Plan(engine_err(&e, "setup")))?;
+            let state = datafusion::execution::SessionStateBuilder::new().with_config(cfg).with_runtime_env(env).with_default_features().build();
+            SessionContext::new_with_state(state)
+        }
+    };
     let timeout = std::time::Duration::from_millis(variant.timeout_ms.max(1));
     let out = rt.block_on(async { tokio::time::timeout(timeout, f(ctx)).await });
     rt.shutdown_timeout(std::time::Duration::from_millis(200));
